@@ -21,4 +21,13 @@ PROPS = {
         "assumptions": ["items are abstracted to Boolean-with-value / other, which is all the anchored code inspects",
                         "operand collections are observed by evaluating the operand expression on its own"],
     },
+    "C08": {
+        "fragments": ["intarith"],
+        "oblig": ["C08_gen.v"],
+        "level_text": "Proof, partial for Decimal operands. Proved for ALL int32 operand pairs (no bound, no sweep): the overflow tests of Integer.Add/Sub/Mul regenerated from primitives.go by go2v are exact (Oblig/C08_gen.v, lia/nia), Integer div/mod are truncated division panicking exactly on a zero divisor (which the model's guards exclude), and the model satisfies the property predicate on all Integer operations (Props/C08.v); division by zero of any operand type is empty; MinInt32 div -1, -(MinInt32), abs(MinInt32) are empty; the half-away rounding used by `/` and round() is within half a unit. For Decimal and mixed operands the model (shopspring/decimal as exact scaled integers) is tied to the code by the correspondence run and the property predicate (exactness of + - *, 16-place accuracy of /, truncation of div, the div/mod identity, exact ceiling/floor/truncate/round) is evaluated by the Coq kernel on every case; the unbounded theorem `holds (model c)` for Decimal operands is not yet proved and is listed as not discharged in DESIGN.md.",
+        "level_note": "Trusted: Coq kernel, go2v, harness + hook, check driver. Modelled, not verified: shopspring/decimal v1.4.0 (Add/Sub/Mul exact, Div = DivRound 16 half-away, QuoRem 0, Round, Ceil, Floor, Truncate), system.Normalize promotion, the zero-divisor / MinInt32 guards of arithmetic.go, ErrIntOverflow/ErrDivideByZero -> empty mapping, math.go abs/ceiling/floor/truncate/round.",
+        "explanation": "Tie A: Integer.Add/Sub/Mul/FloorDiv/Mod regenerated from source and re-proved. Tie B: operator and function programs over boundary and random Integer/Decimal operands from every source, outcomes compared with the model and judged by the property predicate (exact Z arithmetic) inside Coq.",
+        "assumptions": ["decimal results are compared by numeric value (trailing zeros are not observable)",
+                        "`/` is accepted within 1e-16 of the exact quotient, as the property states; the model records the library's half-away rounding"],
+    },
 }
